@@ -71,6 +71,11 @@ impl ScriptRng {
         ScriptRng { prng: Prng::new(seed), extreme: 0, prefix, pos: 0 }
     }
     fn word(&mut self) -> u64 {
+        let w = self.word_inner();
+        LAST_WORD.store(w, std::sync::atomic::Ordering::Relaxed);
+        w
+    }
+    fn word_inner(&mut self) -> u64 {
         if self.pos < self.prefix.len() {
             self.pos += 1;
             return self.prefix[self.pos - 1];
@@ -107,6 +112,13 @@ impl rand_core::RngCore for ScriptRng {
     }
 }
 
+
+static LAST_WORD: std::sync::atomic::AtomicU64 = std::sync::atomic::AtomicU64::new(0);
+
+/// the last random word a `ScriptRng` handed out (diagnosis of sampler hangs)
+pub fn last_word() -> u64 {
+    LAST_WORD.load(std::sync::atomic::Ordering::Relaxed)
+}
 
 // ---- panic site capture ----------------------------------------------------------------------
 
